@@ -33,7 +33,8 @@ def plan(tier):
                                  "call:evolve_exact", "call:variational_compress", "call:expand_bond_dimension", "call:dump",
                                  "mutate:scale-inplace", "mutate:setitem", "mutate:array-slice", "mutate:compress-lossy",
                                  "bond-above-own-limit", "mpdm", "offset!=0", "tree", "call:tree-evolve-imag", "call:tree-evolve",
-                                 "call:tree-apply", "call:tree-add", "tree-mutate:array-slice", "tree-mutate:compress-lossy"],
+                                 "call:tree-apply", "call:tree-add", "tree-mutate:array-slice", "tree-mutate:compress-lossy",
+                                 "ofs-history:sites-reordered"],
             "required_counters": {"fingerprints_compared": 3000, "calls": 600, "tree_fingerprints_compared": 300}}
     if tier == "quick":
         base.update({"ncases": 200, "min_nontrivial": 120})
@@ -142,6 +143,8 @@ def run_case(ctx):
     if ctx.idx % 5 == 4:
         from rv.props import c13_tree
         return c13_tree.run_tree_case(ctx)
+    if ctx.idx % 10 == 7:
+        return ofs_history(ctx)
     em = evolve.hermitian_model(ctx, nsite=(2, 5), max_dim=120, min_dim=6)
     gm, model = em.gm, em.model
     qntot = None
@@ -376,6 +379,83 @@ def mutate(ctx, mon, target):
     ctx.count("mutations")
     mon.trace.append(f"{target.name}.{name}")
     mon.verify(f"in-place-{name}", exempt=(target,), mutated=target)
+
+
+def ofs_history(ctx):
+    """On-the-fly site swapping: the derived state lives on a re-ordered chain and owns a re-ordered Model.  Exempt by
+    documentation is only the Hamiltonian operator handed to evolve; the INPUT state - its vector and what it reports
+    through the per-model operator cache (e_occupations) - must stay what it was, whichever of the two is measured first."""
+    from renormalizer.model import Model, Op
+    from renormalizer.mps import Mpo
+    from renormalizer.utils import EvolveConfig, EvolveMethod, CompressConfig, CompressCriteria
+    from renormalizer.utils.configs import OFS
+    rng = ctx.rng
+    ctx.cls("ofs-history")
+    em = evolve.hermitian_model(ctx, nsite=(3, 5), max_dim=64, min_dim=8, qn_mode="one", kinds=["elec", "elec", "elec", "spin0"],
+                                allow_complex=False)
+    gm = em.gm
+    e_basis = [b for b in gm.basis if b.is_electron]
+    if len(e_basis) < 2:
+        ctx.refuse("fewer than two electronic sites")
+        return
+    qntot = None
+    for _ in range(10):
+        q = states.pick_sector(rng, gm)
+        if states.sector_dim(gm, q) >= 3:
+            qntot = q
+            break
+    if qntot is None:
+        ctx.refuse("no sector with >= 3 states")
+        return
+    model = Model(list(gm.basis), list(em.terms))
+    a = evolve.generic_full_state(ctx, em, qntot)
+    if a is None:
+        ctx.refuse("constructor refused")
+        return
+    a.model = model
+    M = int(max(states.exact_bond_caps(gm.dims)))
+    ofs = [OFS.ofs_s, OFS.ofs_ds][int(rng.integers(0, 2))]
+    a.compress_config = CompressConfig(CompressCriteria.fixed, max_bonddim=M, ofs=ofs)
+    a.evolve_config = EvolveConfig(EvolveMethod.tdvp_ps2)
+    mpo = ctx.lib(Mpo, Model(list(gm.basis), list(em.terms)), what="Mpo")
+
+    def occ_ref(s):
+        v = np.asarray(states.dense_of(s)).reshape(-1)
+        return np.array([np.real(np.vdot(v, dense.op_dense(s.model.basis, [Op(r"a^\dagger a", d)]) @ v)) for d in s.model.e_dofs])
+
+    order_a = [tuple(b.dofs) for b in a.model.basis]
+    fp_a = fingerprint(a)
+    first_measures_input = bool(rng.random() < 0.5)
+    occ_a0 = None
+    if first_measures_input:
+        occ_a0 = np.asarray(ctx.lib(lambda: a.e_occupations, what="e_occupations"))
+        ctx.close(occ_a0, occ_ref(a), 1e-10, "ofs|e_occupations-of-the-input-before", scale=1.0)
+    b = a
+    swapped = False
+    for _ in range(int(rng.integers(2, 6))):
+        env.reseed_global(rng)
+        b = ctx.lib(b.evolve, mpo, 0.4, what="evolve|ps2|ofs")
+        if [tuple(x.dofs) for x in b.model.basis] != order_a:
+            swapped = True
+            break
+    ctx.count("calls")
+    if swapped:
+        ctx.cls("ofs-history:sites-reordered")
+    # the derived state reports its own occupations in the order of ITS model's e_dofs
+    occ_b = np.asarray(ctx.lib(lambda: b.e_occupations, what="e_occupations"))
+    ctx.count("fingerprints_compared", 3)
+    ctx.close(occ_b, occ_ref(b), 1e-10, "ofs|e_occupations-of-the-derived-state", scale=1.0)
+    # ... and the input is what it was: site order, vector, and what it reports
+    ctx.check([tuple(x.dofs) for x in a.model.basis] == order_a, "ofs|evolve-reordered-the-sites-of-its-input")
+    ctx.close(fingerprint(a), fp_a, 1e-10, "ofs|evolve|changes-state-it-was-not-asked-to-modify", scale=max(float(np.linalg.norm(fp_a)), 1e-300))
+    occ_a1 = np.asarray(ctx.lib(lambda: a.e_occupations, what="e_occupations"))
+    ctx.close(occ_a1, occ_ref(a), 1e-10, "ofs|measuring-the-derived-state-changes-what-the-input-reports", scale=1.0,
+              swapped=swapped, input_measured_first=first_measures_input)
+    if occ_a0 is not None:
+        ctx.close(occ_a1, occ_a0, 1e-10, "ofs|e_occupations-of-the-input-differ-before-and-after", scale=1.0)
+    if swapped:
+        ctx.count("mutations")
+        ctx.nontrivial(("ofs", gm.describe(), qntot.tolist(), str(ofs), first_measures_input))
 
 
 def holstein_history(ctx):
